@@ -165,7 +165,7 @@ func psScenario(r *kernel.Rand, mode string, nea, nia int, optIEs bool) *scn.Sce
 }
 
 func checkC05(c *Ctx) {
-	nWS, nPS, nProbe := 400, 600, 800
+	nWS, nPS, nProbe := 1200, 1800, 3000
 	if c.Tier == "thorough" {
 		nWS, nPS, nProbe = 40000, 100000, 100000
 	}
@@ -392,7 +392,7 @@ func corruptionFaults(r *kernel.Rand, n int) []map[string]interface{} {
 }
 
 func checkC12(c *Ctx) {
-	nPS, nWS, nCorr, nDirect := 800, 300, 1500, 60
+	nPS, nWS, nCorr, nDirect := 3000, 1000, 5000, 150
 	if c.Tier == "thorough" {
 		nPS, nWS, nCorr, nDirect = 100000, 30000, 200000, 4000
 	}
